@@ -28,8 +28,19 @@ Definition model_import_constants : list (string * list N) := [
   ("psmStateImport", b "j5/state/v1/metadata.proto")
 ].
 
-(* the constants of imports.go are the ones the model uses *)
-Lemma import_constants_agree : model_import_constants = ImportsGen.import_constants.
+(* the constants of imports.go the model uses have the values the model assumes (constants the
+   model does not use may come and go) *)
+Fixpoint const_lookup (k : string) (l : list (string * list N)) : option (list N) :=
+  match l with
+  | [] => None
+  | (a, v) :: r => if String.eqb a k then Some v else const_lookup k r
+  end.
+Definition const_agrees (kv : string * list N) : bool :=
+  match const_lookup (fst kv) ImportsGen.import_constants with
+  | Some v => str_eqb v (snd kv)
+  | None => false
+  end.
+Lemma import_constants_agree : forallb const_agrees model_import_constants = true.
 Proof. vm_compute. reflexivity. Qed.
 
 (* implicitImports of imports.go is the model's table *)
